@@ -130,3 +130,93 @@ type Int64 struct{ v int64 }
 func (u *Int64) Load() int64       { return LoadInt64(&u.v) }
 func (u *Int64) Store(x int64)     { StoreInt64(&u.v, x) }
 func (u *Int64) Add(d int64) int64 { return AddInt64(&u.v, d) }
+
+// Pointer is the generic atomic pointer.
+type Pointer[T any] struct {
+	p  *T
+	id uint64
+}
+
+func (x *Pointer[T]) step(kind string) {
+	rmwObj(&x.id, kind)
+}
+func (x *Pointer[T]) Load() *T           { x.step("aload"); return x.p }
+func (x *Pointer[T]) Store(v *T)         { x.step("astore"); x.p = v }
+func (x *Pointer[T]) Swap(v *T) (old *T) { x.step("aswap"); old, x.p = x.p, v; return old }
+func (x *Pointer[T]) CompareAndSwap(old, new *T) bool {
+	x.step("acas")
+	if x.p == old {
+		x.p = new
+		vrt.Fold(1)
+		return true
+	}
+	vrt.Fold(0)
+	return false
+}
+
+func rmwObj(id *uint64, kind string) {
+	if !vrt.Active() {
+		return
+	}
+	if *id == 0 {
+		*id = vrt.NewObj()
+	}
+	vrt.Yield(vrt.Op{Kind: kind, Obj: *id})
+	vrt.RaceAcquire(*id)
+	vrt.RaceReleaseMerge(*id)
+}
+
+type Uintptr struct{ v uint64 }
+
+func (u *Uintptr) Load() uintptr   { return uintptr(LoadUint64(&u.v)) }
+func (u *Uintptr) Store(x uintptr) { StoreUint64(&u.v, uint64(x)) }
+
+func SwapUint32(p *uint32, n uint32) uint32 { rmw(unsafe.Pointer(p), "aswap"); o := *p; *p = n; return o }
+func SwapUint64(p *uint64, n uint64) uint64 { rmw(unsafe.Pointer(p), "aswap"); o := *p; *p = n; return o }
+func SwapInt32(p *int32, n int32) int32     { rmw(unsafe.Pointer(p), "aswap"); o := *p; *p = n; return o }
+func SwapInt64(p *int64, n int64) int64     { rmw(unsafe.Pointer(p), "aswap"); o := *p; *p = n; return o }
+func CompareAndSwapUint64(p *uint64, o, n uint64) bool {
+	rmw(unsafe.Pointer(p), "acas")
+	if *p == o {
+		*p = n
+		vrt.Fold(1)
+		return true
+	}
+	vrt.Fold(0)
+	return false
+}
+func CompareAndSwapInt64(p *int64, o, n int64) bool {
+	rmw(unsafe.Pointer(p), "acas")
+	if *p == o {
+		*p = n
+		vrt.Fold(1)
+		return true
+	}
+	vrt.Fold(0)
+	return false
+}
+func (b *Bool) Swap(x bool) bool {
+	n := uint32(0)
+	if x {
+		n = 1
+	}
+	return SwapUint32(&b.v, n) != 0
+}
+func (b *Bool) CompareAndSwap(o, n bool) bool {
+	ou, nu := uint32(0), uint32(0)
+	if o {
+		ou = 1
+	}
+	if n {
+		nu = 1
+	}
+	return CompareAndSwapUint32(&b.v, ou, nu)
+}
+func (u *Uint32) Swap(x uint32) uint32            { return SwapUint32(&u.v, x) }
+func (u *Uint32) CompareAndSwap(o, n uint32) bool { return CompareAndSwapUint32(&u.v, o, n) }
+func (u *Uint64) Swap(x uint64) uint64            { return SwapUint64(&u.v, x) }
+func (u *Uint64) CompareAndSwap(o, n uint64) bool { return CompareAndSwapUint64(&u.v, o, n) }
+func (u *Int32) Swap(x int32) int32               { return SwapInt32(&u.v, x) }
+func (u *Int32) CompareAndSwap(o, n int32) bool   { return CompareAndSwapInt32(&u.v, o, n) }
+func (u *Int64) Swap(x int64) int64               { return SwapInt64(&u.v, x) }
+func (u *Int64) CompareAndSwap(o, n int64) bool   { return CompareAndSwapInt64(&u.v, o, n) }
